@@ -295,7 +295,32 @@ class Gen:
                 return ["call", self.ident(f)] + args
             self.injected = {"rule": "R10", "kind": "FunctionParameterTypeWrong"}
             return ["call", self.ident(f)] + [self.expr(pt, depth) for _, pt in ps] + [self.expr(P("i32"), 0)]
-        return ["call", self.ident(f)] + [self.expr(pt, depth) for _, pt in ps]
+        args = [self.expr(pt, depth) for _, pt in ps]
+        # sibling arguments that are bare reads of related things: two fields of one struct value,
+        # or the same value twice (anything keyed by the text of an operand confuses them)
+        r = self.rng
+        same = [(i, j) for i in range(len(ps)) for j in range(i + 1, len(ps)) if ps[i][1] == ps[j][1]]
+        if same and r.random() < 0.35:
+            i, j = r.choice(same)
+            t = ps[i][1]
+            vis = self.visible()
+            pairs = []
+            for n, (vt, _) in vis.items():
+                if vt[0] == "s" and vt[1] in self.structs:
+                    fs = [a for a, (_, at) in self.eff_attrs(vt[1]).items() if at == t]
+                    if len(fs) >= 2:
+                        pairs.append((n, fs))
+            names = [n for n, (vt, _) in vis.items() if vt == t]
+            if pairs and r.random() < 0.7:
+                n, fs = r.choice(pairs)
+                fa, fb = r.sample(fs, 2)
+                args[i] = ["expr", ["field", self.ident(n), self.ident(fa)]]
+                args[j] = ["expr", ["field", self.ident(n), self.ident(fb)]]
+            elif names:
+                n = r.choice(names)
+                args[i] = ["expr", ["name", self.ident(n)]]
+                args[j] = ["expr", ["name", self.ident(n)]]
+        return ["call", self.ident(f)] + args
 
     def expr(self, t, depth, maxlinks=None):
         r = self.rng
